@@ -133,7 +133,10 @@ def render(hist, seed):
             cur["text"] += " " + txt
             cur["exp"][KEY[form]] = val
         elif a["a"] == "end":
-            lines.append(cur["text"] + ";")
+            # the terminator glued, after a blank, or on a line of its own; the options on one line or one per line
+            lay = rnd.randrange(4)
+            body = cur["text"] if lay < 2 else cur["text"].replace(" " + recase("START", rnd), "\n    START").replace(" INCREMENT", "\n    INCREMENT").replace(" CACHE", "\n    CACHE")
+            lines.append(body + (";", " ;", "\n;", ";")[lay])
             exp.append(("sequence", cur["exp"], True, None))
             cur = None
         elif a["a"] == "declare":
